@@ -41,20 +41,15 @@ fn rnd_load(rng: &mut Rng, dims: usize, max: i64) -> Vec<i64> {
     v
 }
 
-/// one generated case; `kind` = "single" | "multi"
-pub fn gen_case(rng: &mut Rng, kind: &str) -> Value {
-    let n = rng.usize(3, 6);
-    let metric = rng.chance(1, 2);
-    let dur = gen_matrix(rng, n, 30, metric);
-    let dist = if rng.chance(1, 3) { dur.clone() } else { gen_matrix(rng, n, 40, metric) };
-    let dims = if rng.chance(1, 3) { 2 } else { 1 };
+/// a vehicle with a tour that is feasible by construction (windows placed around the simulated arrival,
+/// capacity = max load + slack); returns (veh, tour, cap, time after the last activity)
+pub fn gen_route(rng: &mut Rng, n: usize, dur: &[i64], dims: usize) -> (Value, Vec<Value>, Vec<i64>, i64) {
     let earliest = rng.range(0, 50);
     let k = rng.usize(0, 6);
     let can_shift = rng.chance(1, 3);
     let dep = if can_shift && k > 0 { earliest + rng.range(0, 20) } else { earliest };
     let latest = if can_shift { if rng.chance(1, 2) { Value::Null } else { json!(dep + rng.range(0, 30)) } } else { json!(earliest) };
 
-    // tour, feasible by construction (windows placed around the simulated arrival)
     let mut tour = vec![];
     let (mut loc, mut t) = (0usize, dep);
     // pending dynamic deliveries (pickup-delivery pairs modelled as two single jobs with dynamic demand)
@@ -120,58 +115,92 @@ pub fn gen_case(rng: &mut Rng, kind: &str) -> Value {
             cap[k] = mx[k] + *rng.pick(&[0i64, 0, 1, 2, 3, 5]);
         }
     }
+    (json!({"start": 0, "earliest": earliest, "latest": latest, "dep": dep, "end": end}), tour, cap, t)
+}
 
+/// 1-2 places with 1-3 windows each (sorted or not) somewhere in `[0, horizon]`
+pub fn gen_places(rng: &mut Rng, n: usize, horizon: i64) -> Value {
+    let np = if rng.chance(1, 4) { 2 } else { 1 };
+    let places: Vec<Value> = (0..np)
+        .map(|_| {
+            let nw = *rng.pick(&[1usize, 1, 1, 2, 3]);
+            let mut tws: Vec<(i64, i64)> = (0..nw)
+                .map(|_| {
+                    let s = rng.range(0, horizon.max(1));
+                    (s, s + *rng.pick(&[0i64, 1, 5, 20, 60, 500]))
+                })
+                .collect();
+            if rng.chance(1, 2) {
+                tws.sort();
+            }
+            if rng.chance(1, 5) {
+                tws[0] = (0, 100000);
+            }
+            json!({"loc": rng.usize(0, n - 1), "dur": rng.range(0, 10), "tws": tws})
+        })
+        .collect();
+    json!(places)
+}
+
+/// demand of a single-task candidate job; `mixed` allows the core-API-only shape (static delivery + dynamic pickup)
+pub fn gen_single_dem(rng: &mut Rng, dims: usize, mixed: bool) -> Value {
+    match rng.below(if mixed { 7 } else { 6 }) {
+        0 => Value::Null,
+        6 => json!([zero(dims), rnd_load(rng, dims, 3), rnd_load(rng, dims, 3), zero(dims)]),
+        1 | 2 => json!([rnd_load(rng, dims, 3), zero(dims), zero(dims), zero(dims)]),
+        3 | 4 => json!([zero(dims), zero(dims), rnd_load(rng, dims, 3), zero(dims)]),
+        _ => {
+            let x = rnd_load(rng, dims, 2);
+            json!([x.clone(), zero(dims), x, zero(dims)])
+        }
+    }
+}
+
+/// one generated case; `kind` = "single" | "multi"
+pub fn gen_case(rng: &mut Rng, kind: &str) -> Value {
+    let n = rng.usize(3, 6);
+    let metric = rng.chance(1, 2);
+    let dur = gen_matrix(rng, n, 30, metric);
+    let dist = if rng.chance(1, 3) { dur.clone() } else { gen_matrix(rng, n, 40, metric) };
+    let dims = if rng.chance(1, 3) { 2 } else { 1 };
+    let (veh, tour, cap, t) = gen_route(rng, n, &dur, dims);
     let horizon = t + 60;
-    let gen_places = |rng: &mut Rng| -> Value {
-        let np = if rng.chance(1, 4) { 2 } else { 1 };
-        let places: Vec<Value> = (0..np)
-            .map(|_| {
-                let nw = *rng.pick(&[1usize, 1, 1, 2, 3]);
-                let mut tws: Vec<(i64, i64)> = (0..nw)
-                    .map(|_| {
-                        let s = rng.range(0, horizon.max(1));
-                        (s, s + *rng.pick(&[0i64, 1, 5, 20, 60, 500]))
-                    })
-                    .collect();
-                if rng.chance(1, 2) {
-                    tws.sort();
-                }
-                if rng.chance(1, 5) {
-                    tws[0] = (0, 100000);
-                }
-                json!({"loc": rng.usize(0, n - 1), "dur": rng.range(0, 10), "tws": tws})
-            })
-            .collect();
-        json!(places)
-    };
     let costs = json!([rng.range(0, 20), rng.range(1, 3), rng.range(0, 2)]);
     let obj = if rng.chance(1, 2) { "cost" } else { "distance" };
     let mut case = json!({
-        "k": kind, "n": n, "dur": dur, "dist": dist,
-        "veh": {"start": 0, "earliest": earliest, "latest": latest, "dep": dep, "end": end},
+        "k": kind, "n": n, "dur": dur, "dist": dist, "veh": veh,
         "cap": cap, "costs": costs, "obj": obj, "tour": tour,
     });
     if kind == "single" {
-        let dem = match rng.below(7) {
-            0 => Value::Null,
-            // mixed shape (core API only): static delivery together with a dynamic pickup in one activity
-            6 => json!([zero(dims), rnd_load(rng, dims, 3), rnd_load(rng, dims, 3), zero(dims)]),
-            1 | 2 => json!([rnd_load(rng, dims, 3), zero(dims), zero(dims), zero(dims)]),
-            3 | 4 => json!([zero(dims), zero(dims), rnd_load(rng, dims, 3), zero(dims)]),
-            _ => {
-                let x = rnd_load(rng, dims, 2);
-                json!([x.clone(), zero(dims), x, zero(dims)])
-            }
-        };
-        case["job"] = json!({"places": gen_places(rng), "dem": dem});
+        case["job"] = json!({"places": gen_places(rng, n, horizon), "dem": gen_single_dem(rng, dims, true)});
     } else {
         // pickup then delivery of the same shipment (dynamic demand)
         let p = rnd_load(rng, dims, 3);
         case["jobs"] = json!([
-            {"places": gen_places(rng), "dem": [zero(dims), p.clone(), zero(dims), zero(dims)]},
-            {"places": gen_places(rng), "dem": [zero(dims), zero(dims), zero(dims), p]},
+            {"places": gen_places(rng, n, horizon), "dem": [zero(dims), p.clone(), zero(dims), zero(dims)]},
+            {"places": gen_places(rng, n, horizon), "dem": [zero(dims), zero(dims), zero(dims), p]},
         ]);
     }
     case
 }
 
+/// several vehicles (each with its own tour, capacity, costs) over one matrix and several unassigned
+/// single-task candidate jobs: the work list of `evaluate_all`
+pub fn gen_multi_route_case(rng: &mut Rng, metric: bool) -> Value {
+    let n = rng.usize(3, 7);
+    let dur = gen_matrix(rng, n, 30, metric);
+    let dist = if rng.chance(1, 3) { dur.clone() } else { gen_matrix(rng, n, 40, metric) };
+    let dims = if rng.chance(1, 4) { 2 } else { 1 };
+    let n_routes = rng.usize(1, 5);
+    let mut routes = vec![];
+    let mut horizon = 0;
+    for _ in 0..n_routes {
+        let (veh, tour, cap, t) = gen_route(rng, n, &dur, dims);
+        horizon = horizon.max(t + 60);
+        routes.push(json!({"veh": veh, "tour": tour, "cap": cap, "costs": [rng.range(0, 20), rng.range(1, 3), rng.range(0, 2)]}));
+    }
+    let n_jobs = rng.usize(1, 6);
+    let jobs: Vec<Value> =
+        (0..n_jobs).map(|_| json!({"places": gen_places(rng, n, horizon), "dem": gen_single_dem(rng, dims, false)})).collect();
+    json!({"k": "evalall", "n": n, "dur": dur, "dist": dist, "obj": "distance", "routes": routes, "cands": jobs})
+}
